@@ -58,6 +58,7 @@ LAWS = ['SplitLaw', 'RightLaw', 'MidLaw', 'TruncLaw', 'ReplaceLaw', 'FindLaw', '
         'TextRoundLaw', 'TextShapeLaw']
 VALUE_ERROR = '#VALUE!'
 MAX_KEPT = 60          # violations kept per TLC job (all are counted)
+MAX_KEPT_FN = 4        # ... and per function and way of calling it
 
 
 # --------------------------------------------------------------------------
@@ -235,6 +236,7 @@ class Driver:
             setattr(self, c, 0)
         self.per_fn = {}
         self.violations = []
+        self.kept_by = {}
         self.samples = []
         self.text_samples = []
         self.rows = []          # pending formula rows
@@ -279,13 +281,16 @@ class Driver:
                 xl.same_value(got, w) for w in wants):
             return
         self.nviolations += 1
-        if len(self.violations) >= MAX_KEPT:
-            return
         c = case()
+        group = (fn, c['via'])
+        self.kept_by[group] = self.kept_by.get(group, 0) + 1
+        if len(self.violations) >= MAX_KEPT or self.kept_by[group] > MAX_KEPT_FN:
+            return
         c['want'] = want
         c['got'] = repr(got)
         name = fn.upper().rstrip('_')
-        what = (f"{name}{tuple(c['args'])!r}" if c['via'] == 'library'
+        what = (f"{c['args'][0]!r} & {c['args'][1]!r}" if fn == 'amp' and c['via'] == 'library'
+                else f"{name}{tuple(c['args'])!r}" if c['via'] == 'library'
                 else f"{c['formula']} with {c['cells']!r}")
         self.violations.append(dict(
             desc=f"{what} via {c['via']}: expected "
